@@ -533,3 +533,26 @@ func TestC20_ListedNameOfSlashes(t *testing.T) {
 		}
 	}
 }
+
+// found when real Debian field names were given to the typed documents as unknown fields
+func TestC10_FilenameFieldDoesNotMoveTheHandle(t *testing.T) {
+	root := t.TempDir()
+	up, victim := filepath.Join(root, "upload"), filepath.Join(root, "victim")
+	os.Mkdir(up, 0o755)
+	os.Mkdir(victim, 0o755)
+	os.WriteFile(filepath.Join(victim, "precious"), []byte("x"), 0o644)
+	os.WriteFile(filepath.Join(up, "precious"), []byte("y"), 0o644)
+	doc := "Format: 1.0\nSource: s\nVersion: 1\nFilename: " + victim + "/whatever.dsc\nFiles:\n d41d8cd98f00b204e9800998ecf8427e 1 precious\n"
+	os.WriteFile(filepath.Join(up, "s_1.dsc"), []byte(doc), 0o644)
+	d, err := control.ParseDscFile(filepath.Join(up, "s_1.dsc"))
+	if err != nil {
+		t.Fatal(err)
+	}
+	if d.Filename != filepath.Join(up, "s_1.dsc") {
+		t.Errorf("the handle's Filename was taken from the document: %q", d.Filename)
+	}
+	d.Remove()
+	if _, err := os.Stat(filepath.Join(victim, "precious")); err != nil {
+		t.Errorf("a file in another directory was deleted: %v", err)
+	}
+}
